@@ -87,7 +87,7 @@ func (c19) Rule() string {
 		"arguments = tuples over a 58-value boundary pool (undefined, bools, ints 0..MaxInt64/MinInt64 incl. 2^31 2^40 2^62, uints, floats incl. NaN/Inf/1e300/2^40, chars, 10 strings incl. invalid UTF-8, layouts, a decimal 2^40 and a 1 KiB string, " +
 		"bytes, arrays incl. nested and 1000 elements, maps, syncMap, error, time, location, 5 callables (builtin, Go function, compiled function, erroring, panicking), scanArg, rawMessage, encoderOptions); " +
 		"lengths 0..2 exhaustive (quick and thorough); thorough adds length 3 exhaustive for callables whose arity admits 3 arguments (probed), sampled length 3 otherwise, sampled length 4 and 5..8 where admitted; " +
-		"each (callable, tuple) runs on 3 routes (direct Go call without VM; CallEx/CallName with a live VM inside a Go callback of a running script; compiled script on a VM without recovery). " +
+		"each (callable, tuple) runs on 3 routes (+ route d: arguments split between normal and variadic, + route e: CallEx WITHOUT a VM for callables with an extended entry point) (direct Go call without VM; CallEx/CallName with a live VM inside a Go callback of a running script; compiled script on a VM without recovery). " +
 		"Oracle: (non-nil Object, nil) or (_, error); no panic, no crash, no (nil,nil), <= 1 GiB allocated per call, a call with a size argument >= 2^40 returns within 10 s. " +
 		"Not executed and counted: Sleep > 5 ms; size requests between 256 MiB and 2^40 bytes (machine dependent). " +
 		"non-trivial = tuple contains a boundary value (huge/negative/empty/special/callable/container) or the call was rejected with an error; distinct by (callable, tuple type signature, magnitude classes)"
@@ -99,12 +99,12 @@ func (c19) Batches(tier string) int {
 	return 16
 }
 func (c19) Required(tier string) []string {
-	r := []string{"calls_route_a", "calls_route_b", "calls_route_c", "outcome_value", "outcome_error",
+	r := []string{"calls_route_a", "calls_route_b", "calls_route_c", "calls_route_e", "outcome_value", "outcome_error",
 		"err_wrong_num_args", "err_type", "err_not_callable", "err_other",
 		"family_builtin", "family_error_new", "family_strings", "family_fmt", "family_json", "family_time",
 		"family_time_method_callname", "family_time_method_indexget", "family_location",
 		"value_builtin", "value_error_new", "value_strings", "value_fmt", "value_json", "value_time", "value_time_method_callname",
-		"len0", "len1", "len2", "sleep_executed", "sleep_skipped_over_5ms", "callback_invoked_by_callee", "callables"}
+		"len0", "len1", "len2", "sleep_executed", "sleep_over_10ms_executed", "sleep_skipped_over_5ms", "callback_invoked_by_callee", "callables"}
 	if tier == "thorough" {
 		r = append(r, "len3", "len4", "len5to8")
 	}
@@ -318,6 +318,7 @@ type c19callable struct {
 	accept [9]bool    // arity k admitted (probed)
 	sizeFn bool       // one of the four size-request functions
 	sleep  bool
+	hasEx  bool // the callable has its own extended entry point (ValueEx)
 }
 
 var c19timeMethods = []string{"Add", "Sub", "AddDate", "After", "Before", "Format", "AppendFormat", "In", "Round", "Truncate", "Equal",
@@ -340,7 +341,7 @@ func c19catalog(env *c19env) []*c19callable {
 		obj := ugo.BuiltinObjects[ugo.BuiltinsMap[n]]
 		switch o := obj.(type) {
 		case *ugo.BuiltinFunction:
-			out = append(out, &c19callable{id: "builtin:" + n, family: "builtin", kind: c19kBuiltin, name: n, fn: o, sizeFn: n == "repeat"})
+			out = append(out, &c19callable{id: "builtin:" + n, family: "builtin", kind: c19kBuiltin, name: n, fn: o, sizeFn: n == "repeat", hasEx: o.ValueEx != nil})
 		case *ugo.Error:
 			out = append(out, &c19callable{id: "error:" + n + ".New", family: "error_new", kind: c19kErrNew, name: "New", recv: o})
 		}
@@ -368,6 +369,12 @@ func c19catalog(env *c19env) []*c19callable {
 			}
 			if md.name == "time" && k == "Sleep" {
 				cl.sleep = true
+			}
+			switch f := v.(type) {
+			case *ugo.Function:
+				cl.hasEx = f.ValueEx != nil
+			case *ugo.BuiltinFunction:
+				cl.hasEx = f.ValueEx != nil
 			}
 			out = append(out, cl)
 		}
@@ -447,11 +454,17 @@ func (h *c19harness) guard(f func() (ugo.Object, error)) (o c19out) {
 
 // callDirect performs the Go-level call of cl with a given (possibly nil) VM.
 func c19callDirect(cl *c19callable, vm *ugo.VM, args []ugo.Object) (ugo.Object, error) {
+	return c19callDirectEx(cl, vm, args, vm != nil)
+}
+
+// c19callDirectEx: with ex set the extended entry point (CallEx) is used even without a VM, as the
+// library's own Value wrappers do (ugo.NewCall(nil, args)).
+func c19callDirectEx(cl *c19callable, vm *ugo.VM, args []ugo.Object, ex bool) (ugo.Object, error) {
 	callObj := func(f ugo.Object) (ugo.Object, error) {
 		if !f.CanCall() {
 			return ugo.Undefined, ugo.ErrNotCallable.NewError(f.TypeName())
 		}
-		if vm != nil {
+		if ex {
 			if ex, ok := f.(ugo.ExCallerObject); ok {
 				return ex.CallEx(ugo.NewCall(vm, args))
 			}
@@ -1009,6 +1022,8 @@ func (h *c19harness) execRoute(cl *c19callable, route string, idx []int, args []
 			return h.routeB(cl, args)
 		case "d":
 			return h.routeD(cl, args)
+		case "e":
+			return h.guard(func() (ugo.Object, error) { return c19callDirectEx(cl, nil, args, true) }), nil
 		}
 		return h.routeC(cl, args)
 	}
@@ -1043,7 +1058,7 @@ func (h *c19harness) execRoute(cl *c19callable, route string, idx []int, args []
 		if core19 == "" {
 			core19 = h.typeSig(idx)
 		}
-		for _, r := range []string{"a", "b", "c", "d"} {
+		for _, r := range []string{"a", "b", "c", "d", "e"} {
 			_, _ = h.stateLog.WriteString("C " + cl.id + "|" + r + "|" + core19 + "\n")
 		}
 		_ = h.stateLog.Sync()
@@ -1093,10 +1108,13 @@ func (h *c19harness) runTuple(cl *c19callable, idx []int) {
 		}
 	}
 	ran := false
-	for _, route := range []string{"a", "b", "c", "d"} {
+	for _, route := range []string{"a", "b", "c", "d", "e"} {
 		route := route
 		if route == "d" && len(idx) == 0 {
 			continue
+		}
+		if route == "e" && !cl.hasEx {
+			continue // without an extended entry point CallEx falls back to the plain one: same as route a
 		}
 		if !c.Begin(func() string { return c19desc(env, cl, route, idx) }) {
 			continue
@@ -1206,6 +1224,42 @@ func (h *c19harness) probeArity(cl *c19callable) {
 	}
 }
 
+// sleepProbe executes time.Sleep with durations above the 10 ms slice in which it polls the VM for an
+// abort, on every route (without a VM, with a live VM in a callback, from a script). Durations are
+// fixed and short; the general tuples skip everything above 5 ms.
+func (h *c19harness) sleepProbe(cl *c19callable) {
+	c := h.c
+	for _, d := range []time.Duration{11 * time.Millisecond, 23 * time.Millisecond} {
+		for _, route := range []string{"a", "b", "c", "e"} {
+			desc := fmt.Sprintf("%s(%d) route %s [sleep probe]", cl.id, int64(d), route)
+			if !c.Begin(func() string { return desc }) {
+				continue
+			}
+			o, herr, _ := h.execRoute(cl, route, nil, []ugo.Object{ugo.Int(d)}, false)
+			if herr != nil {
+				c.Inconclusive("harness: " + herr.Error())
+				continue
+			}
+			c.Count("sleep_over_10ms_executed")
+			w := c19wit{Callable: cl.id, Route: route, Args: []string{fmt.Sprintf("int:%d", int64(d))}, Call: desc}
+			switch {
+			case o.panicked:
+				top := c19topFrame(o.stack)
+				w.Outcome, w.Panic, w.TopFrame, w.Stack = "panic", o.pmsg, top, c19trimStack(o.stack)
+				norm := core.NormMsg(o.pmsg)
+				c.SetAdd("violating_callables", cl.id+" [panic "+top+": "+norm+"]")
+				h.violation("C19|panic|"+cl.id+"|"+top+"|"+norm, desc+" panics: "+norm+" (in "+top+")", w)
+			case o.err != nil:
+				w.Outcome = "error: " + o.err.Error()
+				h.violation("C19|sleep-error|"+cl.id, desc+" fails: "+o.err.Error(), w)
+			case o.val == nil:
+				w.Outcome = "nil,nil"
+				h.violation("C19|nil-result|"+cl.id, desc+" returned (nil, nil)", w)
+			}
+		}
+	}
+}
+
 func (m c19) Run(c *core.Ctx) {
 	oldPW, oldOut, oldIn := ugo.PrintWriter, os.Stdout, os.Stdin
 	defer func() { ugo.PrintWriter, os.Stdout, os.Stdin = oldPW, oldOut, oldIn }() // replay prints after Run
@@ -1248,6 +1302,13 @@ func (m c19) Run(c *core.Ctx) {
 	thorough := c.Thorough()
 	for _, cl := range cat {
 		h.probeArity(cl)
+	}
+	if c.Batch == 0 {
+		for _, cl := range cat {
+			if cl.sleep {
+				h.sleepProbe(cl)
+			}
+		}
 	}
 
 	idx := 0
